@@ -1,0 +1,5 @@
+//go:build !verif
+
+package tasklane
+
+func vhook(*TaskLane, string, int, Task) {}
